@@ -275,10 +275,10 @@ func TestVerif_C09_Trace(t *testing.T) {
 		// message; every variant uses that same nonce with its own key, i.e. an ordinary counter — a branch on the counter value
 		// (which depends on the hash key, hence on the key) makes the traces differ
 		wrapNonce := ""
-		if (op == "seal" || op == "open") && gen.Int(t, "wrapgroup", 0, 2) == 0 {
+		if (op == "seal" || op == "open") && gen.Int(t, "wrapgroup", 0, 1) == 0 {
 			// ... or so that the pre-counter block J0 itself — GHASH_H(nonce) for such nonces, a function of the hash key — is a
 			// special block under variant 0's key: all zero, all ones, or the 0^96||1 a 12-byte zero nonce would give
-			j0kind := gen.Pick(t, "j0kind", "wraps", "wraps", "zero", "zero", "ones", "0^96||1")
+			j0kind := gen.Pick(t, "j0kind", "wraps", "wraps", "zero", "zero", "zero", "ones", "0^96||1")
 			if base.PL < 16 && j0kind == "wraps" {
 				j0kind = "zero"
 			}
